@@ -182,7 +182,20 @@ def jobs_for(prop, tier, seed):
         J += shard_jobs(prop, seed, ["churn", "--mode", "stress"], 2, s, "lsan", variant="asan", base=50, leaks=True,
                         tool_props={"asan-detected": "C17", "*": "C17,C16"})
         J.append(miri(prop, seed, "leaks", ["seq", "--runs", "2", "--len", "40", "--perm-every", "0"], ms, mt, {"miri-leak": "C17", "*": "C09"}, leaks=True, base=43))
-    elif prop == "C18":
+    # additional Miri slices in the thorough tier only (UB / race / deadlock reports on the families that the
+    # quick tier runs natively)
+    if tier == "thorough":
+        extra_miri = {
+            "C06": (["conc", "--families", "quiesce,remove-stream", "--runs", "2", "--fl", "broadcast"], {"*": "C06,C04,C16"}, False),
+            "C10": (["conc", "--families", "add-stream-sole", "--runs", "2"], {"*": "C10,C04,C16"}, False),
+            "C11": (["conc", "--families", "remove-stream", "--runs", "2"], {"*": "C11,C04,C16"}, False),
+            "C13": (["conc", "--families", "no-receiver", "--runs", "2", "--fl", "broadcast"], {"*": "C13,C05,C16"}, False),
+            "C15": (["conc", "--families", "steady,last-sender", "--runs", "2", "--fut", "1", "--fl", "broadcast"], {"*": "C15,C04,C16"}, False),
+        }
+        if prop in extra_miri:
+            a, tp, nr = extra_miri[prop]
+            J.append(miri(prop, seed, "extra", a, ms // 2, mt, tp, no_race=nr, base=53))
+    if prop == "C18":
         J += shard_jobs(prop, seed, ["solo"], n, s, "solo")
     elif prop == "C19":
         J.append(dict(variant="native", args=["sendsync"], label="C19-sendsync", timeout=120))
